@@ -22,6 +22,18 @@ SERIAL_ONLY = 'parallel_handlers=True buses: the task-per-handler branch of _exe
 HANDLER_MODEL = 'handlers are arbitrary user code: may call any public API, suspend, return anything, raise any Exception or CancelledError'
 
 PROPERTIES = {
+    'C18': {
+        'functions': ['EventBus.expect', 'EventBus.expect.notify', 'EventBus.on', 'EventBus._get_applicable_handlers', 'EventBus._would_create_loop', 'bubus.get_handler_id',
+                      'EventBus._handler_dispatched_ancestor'],
+        'trusted_base': [AX[k] for k in ('A1', 'A3', 'A8', 'A10', 'X1', 'X2')] + [
+            'EventBus.on contract assumed (appends the handler under key(pattern): "*", class name or the string)',
+            'include / exclude / predicate are user predicates: deterministic per event (uninterpreted), may raise any Exception',
+            'rely while expect() is suspended: other tasks neither remove nor duplicate this call\'s temporary handler',
+            'lemma (over the contracts, not machine-checked): the temporary handler is offered exactly the events whose event_type equals its key (or all, for "*") by _get_applicable_handlers, '
+            'once per processed event (C01), in the bus\'s processing order; the closure resolves the future only for the first matching one'],
+        'not_decided': ['that a matching event arriving within `timeout` is seen in time (timer accuracy, A3)'],
+        'assumptions': [],
+    },
     'C01': {
         'functions': ['EventBus._get_applicable_handlers', 'EventBus._would_create_loop', 'bubus.get_handler_id', 'EventBus._handler_dispatched_ancestor',
                       'EventBus.process_event', 'EventBus._execute_handlers', 'EventBus.execute_handler', 'EventBus.step', 'EventBus._get_next_event',
